@@ -261,6 +261,9 @@ Definition restored_value (r : restore) (orig : Z) (items : entries) : option Z 
   | RUnknown => None
   end.
 
+(* the regenerated table *)
+Definition the_table : table := mkT prefixes exports imports unrecognised guard_deps init_order.
+
 (* ---------------- the property predicate and the known-finding classes ---------------- *)
 (* what the round trip is predicted to do to a (module, prefix): true = comes back identical *)
 Definition survives (t : table) (m : string) (p : prefix_row) : bool :=
@@ -317,16 +320,51 @@ Definition known_holes : list (string * Z * Z) :=
     (* 16: rewards: the external rewards of stable-mint vaults, the reward epochs and both their id
            counters are not exported (the reward coins stay in the module account) *)
     ("rewards", 23, 16); ("rewards", 32, 16); ("rewards", 41, 16); ("rewards", 48, 16) ].
+
+(* An id counter is a known hole only in the SHAPE in which it was found: how InitGenesis restores it
+   (code of [counter_restore]: 1 maximum id of the imported records, 2 id of the last imported record
+   - the getters iterate in ascending id order, so that is the maximum too -, 3 NUMBER of imported
+   records, 4 constant 0, 5 never set).  Maximum / last hand the id of a deleted NEWEST record out
+   again (class 10 / 14: no collision); a count collides with a live record as soon as an OLDER
+   record was deleted (liquidation V1, class 4, reproduced); absent collides with record 1.  A
+   counter whose regenerated shape differs from the one listed here is in no class: a maximum that
+   turns into a count (or a counter that is no longer restored at all) fails the table theorem and
+   is reported by the behavioural run as a violation, not as the known finding. *)
+Definition shape_code (r : restore) : Z :=
+  match r with RExact => 0 | RMax _ => 1 | RLast _ => 2 | RCount _ => 3 | RZero => 4 | RAbsent => 5 | RUnknown => 6 end.
+
+Definition known_counter_shapes : list (string * Z * Z) :=
+  [ ("vault", 21, 1); ("rewards", 34, 1); ("rewards", 40, 1);
+    ("lend", 22, 2); ("lend", 23, 2); ("lend", 24, 2); ("lend", 37, 2);
+    ("auction", 19, 2); ("auction", 25, 2);
+    ("liquidation", 1, 3);
+    ("auctionsV2", 3, 5); ("liquidationsV2", 3, 5); ("locker", 23, 5);
+    ("rewards", 21, 5); ("rewards", 22, 5); ("rewards", 23, 5); ("rewards", 48, 5) ].
 Local Close Scope string_scope.
 
+Definition hole_shape_ok (t : table) (m : string) (b : Z) : bool :=
+  match find (fun p => String.eqb (p_mod p) m && (p_byte p =? b)) (t_pref t) with
+  | Some p =>
+    if p_counter p then
+      match find (fun h => String.eqb (fst (fst h)) m && (snd (fst h) =? b)) known_counter_shapes with
+      | Some h => shape_code (counter_restore t m b) =? snd h
+      | None => false
+      end
+    else true
+  | None => false
+  end.
+
 Definition kf_C20 (n : Z) (m : string) (b : Z) : bool :=
-  existsb (fun h => String.eqb (fst (fst h)) m && (snd (fst h) =? b) && (snd h =? n)) known_holes.
+  existsb (fun h => String.eqb (fst (fst h)) m && (snd (fst h) =? b) && (snd h =? n)) known_holes &&
+  hole_shape_ok the_table m b.
 Definition kf_C20_any (m : string) (b : Z) : bool :=
-  existsb (fun h => String.eqb (fst (fst h)) m && (snd (fst h) =? b)) known_holes.
+  existsb (fun h => String.eqb (fst (fst h)) m && (snd (fst h) =? b)) known_holes &&
+  hole_shape_ok the_table m b.
 (* class number of a (module, prefix), 0 when it is in no class *)
 Definition kf_C20_class (m : string) (b : Z) : Z :=
   match find (fun h => String.eqb (fst (fst h)) m && (snd (fst h) =? b)) known_holes with
-  | Some h => snd h | None => 0 end.
+  | Some h => if hole_shape_ok the_table m b then snd h else 0
+  | None => 0 end.
 
 (* ---------------- predicates evaluated on the implementation's observations ---------------- *)
 Fixpoint entries_eqb (a b : entries) : bool :=
@@ -344,8 +382,6 @@ Definition holds_C20_prefix (orig reimported : entries) : bool := entries_eqb or
 Definition holds_C20_step (class_o class_n id_o id_n bal_o bal_n : Z) : bool :=
   (class_o =? class_n) && (id_o =? id_n) && (bal_o =? bal_n).
 
-(* the regenerated table *)
-Definition the_table : table := mkT prefixes exports imports unrecognised guard_deps init_order.
 
 (* prediction for one prefix row of the regenerated table, as a small code for the runner:
    0 identical, 1 zero-valued records, 2 empty, 3 counter recomputed (see [counter_restore]),
